@@ -45,6 +45,12 @@ def check(ctx):
   r3(ctx)
   r4(ctx)
   r5(ctx)
+  from . import c14 as _c14
+  ctx.rule('C14.R2', 'shared with C14: the framed read loops raise on an empty chunk (end of stream is a fault that must be reported)')
+  _c14.r2(ctx)
+  from . import c02 as _c02
+  ctx.rule('C02.R4', 'shared with C02: writer and readers of the tag map agree on the entry layout (shutdown must be able to answer every entry)')
+  _c02.r4(ctx)
 
 
 def r1(ctx):
